@@ -1032,20 +1032,11 @@ impl FromStr for Epoch {
                     TimeScale::TAI => Ok(Self::from_jde_tai(value)),
                     TimeScale::TDB => Ok(Self::from_jde_tdb(value)),
                     TimeScale::UTC => Ok(Self::from_jde_utc(value)),
-                    _ => Err(HifitimeError::Parse {
-                        source: ParsingError::UnsupportedTimeSystem,
-                        details: "for Julian Date",
-                    }),
+                    ts => Ok(Self::from_jde_in_time_scale(value, ts)),
                 },
                 "MJD" => match ts {
                     TimeScale::TAI => Ok(Self::from_mjd_tai(value)),
-                    TimeScale::UTC | TimeScale::GPST | TimeScale::BDT | TimeScale::GST => {
-                        Ok(Self::from_mjd_in_time_scale(value, ts))
-                    }
-                    _ => Err(HifitimeError::Parse {
-                        source: ParsingError::UnsupportedTimeSystem,
-                        details: "for Modified Julian Date",
-                    }),
+                    ts => Ok(Self::from_mjd_in_time_scale(value, ts)),
                 },
                 "SEC" => match ts {
                     TimeScale::TAI => Ok(Self::from_tai_seconds(value)),
